@@ -607,6 +607,15 @@ impl PeerManager {
             .await?;
         let token = MeetingSecret::derive_token(DERIVE_STRING, &inv.invite_id);
         let entry = self.allowed_token.entry(token).or_default();
+        //an invitation that is already known (accepted before, or created by this peer) is not registered twice
+        let known = entry.iter().any(|tt| match tt {
+            TokenType::Invite(i) => i.invite_id.eq(&inv.invite_id),
+            TokenType::OwnedInvite(o) => o.id.eq(&inv.invite_id),
+            TokenType::AllowedPeer(_) => false,
+        });
+        if known {
+            return Ok(());
+        }
         entry.push(TokenType::Invite(inv.clone()));
         self.invites.push(inv);
         self.send_annouces().await?;
